@@ -72,6 +72,10 @@ type Case struct {
 	AutoHeadGet bool `json:"autohead_get,omitempty"`
 	// PreCancelled: the request arrives with a context that is cancelled already.
 	PreCancelled bool `json:"arrives_cancelled,omitempty"`
+	// ClearMiddleware: after the requests, Handlers() is called with no
+	// arguments (the application has no middleware any more) and the request is
+	// served once more: it must go like on an instance that never had any.
+	ClearMiddleware bool `json:"handlers_cleared_afterwards,omitempty"`
 }
 
 func (c Case) groupPath(d int) string {
@@ -113,6 +117,7 @@ type result struct {
 	Body    string
 	Escaped bool   // a panic escaped the whole chain
 	Second  string // how a second, identical request differed from the first ("" = it did not)
+	Cleared string // how the request after Handlers() differed from a fresh instance without middleware
 }
 
 type interp struct {
@@ -243,12 +248,15 @@ func reference(c Case) (res result) {
 
 type harnessPanic struct{ at int }
 
-func real(c Case) (res result) {
+func real(c Case) (res result) { return realFrom(c, 0) }
+
+// realFrom builds the application with handler ids starting at base.
+func realFrom(c Case, base int) (res result) {
 	var trace []string
 	ev := func(format string, args ...interface{}) { trace = append(trace, fmt.Sprintf(format, args...)) }
 	var cancel gocontext.CancelFunc
 	var later []func() // clean-up of live contexts, run when the request is over
-	idx := 0
+	idx := base
 	mk := func(h H) flamego.Handler {
 		i := idx
 		idx++
@@ -435,6 +443,16 @@ func real(c Case) (res result) {
 	if strings.Join(again.Trace, ",") != strings.Join(res.Trace, ",") || again.Status != res.Status || again.Body != res.Body || again.Escaped != res.Escaped {
 		res.Second = fmt.Sprintf("the same request served again on the same instance gives trace %v status %d body %q (first time: trace %v status %d body %q)", again.Trace, again.Status, again.Body, res.Trace, res.Status, res.Body)
 	}
+	if c.ClearMiddleware {
+		f.Handlers()
+		third := serveOnce()
+		c2 := c
+		c2.Middleware, c2.ClearMiddleware = nil, false
+		fresh := realFrom(c2, base+len(c.Middleware))
+		if strings.Join(third.Trace, ",") != strings.Join(fresh.Trace, ",") || third.Status != fresh.Status || third.Body != fresh.Body || third.Escaped != fresh.Escaped {
+			res.Cleared = fmt.Sprintf("after Handlers() with no arguments the request gives trace %v status %d body %q; an instance that never had middleware gives trace %v status %d body %q", third.Trace, third.Status, third.Body, fresh.Trace, fresh.Status, fresh.Body)
+		}
+	}
 	return res
 }
 
@@ -561,6 +579,9 @@ func checkCase(c Case) (out evid.Outcome) {
 	if got.Second != "" {
 		return fail(out, "second-request", "%s; program %s", got.Second, js(c))
 	}
+	if got.Cleared != "" {
+		return fail(out, "middleware-cleared", "%s; program %s", got.Cleared, js(c))
+	}
 	// what the chain does once a panic has crossed run() and was recovered by an
 	// outer handler is not said by the statement: the traces are compared up to
 	// the first recovery, the response is not compared then
@@ -629,7 +650,7 @@ func genH(t *rapid.T) H {
 		case k < 13:
 			h.Ops = append(h.Ops, "bc")
 		case k < 16:
-			h.Ops = append(h.Ops, fmt.Sprintf("s%d", []int{200, 201, 204, 302, 404, 500}[rapid.IntRange(0, 5).Draw(t, "code")]))
+			h.Ops = append(h.Ops, fmt.Sprintf("s%d", []int{200, 201, 204, 302, 404, 500, 103}[rapid.IntRange(0, 6).Draw(t, "code")]))
 		case k < 17:
 			h.Ops = append(h.Ops, "c")
 		case k < 18:
@@ -674,6 +695,7 @@ func genCase(t *rapid.T) Case {
 	c.Wrapper = rapid.IntRange(0, 3).Draw(t, "wrapper") == 0
 	c.AutoHeadGet = rapid.IntRange(0, 3).Draw(t, "autoheadget") == 0
 	c.PreCancelled = rapid.IntRange(0, 11).Draw(t, "precancelled") == 0
+	c.ClearMiddleware = len(c.Middleware) > 0 && rapid.IntRange(0, 3).Draw(t, "clearmw") == 0
 	if len(c.Groups) > 0 && rapid.IntRange(0, 3).Draw(t, "emptygroup") == 0 {
 		c.EmptyGroupPath = rapid.IntRange(1, 1<<len(c.Groups)-1).Draw(t, "emptymask")
 	}
